@@ -90,9 +90,30 @@ class Vflow:
         self.proc = None
         self.errf = None
 
-    def start(self):
+    def start(self, tries=4):
+        """start the collector and wait until its four UDP sockets are bound. The ports are picked by binding and
+        closing them first, so another process (16 cycles run in parallel) can take one in between: a start that does
+        not become ready is retried on fresh ports. Returns True, False (could not be started: an artefact of the
+        harness, no verdict) or "crash" (the process died with a panic / fatal error: that is a finding)."""
+        for attempt in range(tries):
+            if attempt:
+                self.ports = free_ports(5)
+            r = self._start_once()
+            if r is True:
+                return True
+            if self.proc and self.proc.poll() is None:
+                self.proc.kill()
+                self.proc.wait()
+            self.errf.close()
+            log = self.log()
+            if any(w in log for w in ("panic:", "fatal error", "DATA RACE")):
+                return "crash"
+            time.sleep(0.2 * (attempt + 1))
+        return False
+
+    def _start_once(self):
         p = self.ports
-        self.errpath = os.path.join(self.wdir, "stderr-%d.log" % int(time.time() * 1000))
+        self.errpath = os.path.join(self.wdir, "stderr-%d.log" % int(time.time() * 1000000))
         self.errf = open(self.errpath, "wb")
         args = [self.binary, "-config", os.path.join(self.wdir, "absent.conf"),
                 "-pid-file", os.path.join(self.wdir, "vflow.pid"),
@@ -105,7 +126,7 @@ class Vflow:
         self.proc = subprocess.Popen(args, stdout=self.errf, stderr=self.errf, cwd=self.wdir)
         # ready when the four UDP sockets are bound ("… is running (UDP: listening …" is logged after ListenUDP)
         t0 = time.time()
-        while time.time() - t0 < 8:
+        while time.time() - t0 < 10:
             if self.proc.poll() is not None:
                 return False
             try:
@@ -155,14 +176,19 @@ def cycle(n, seed, binary, pattern=None):
     vf = Vflow(wdir, free_ports(5), binary)
     sample = {"pattern": pattern, "signal": sig.name}
     try:
-        if not vf.start():
-            return "start-failed", "fail:start the collector did not come up: " + vf.log()[-300:], sample
+        st0 = vf.start()
+        if st0 == "crash":
+            return "start-crashed", "fail:start the collector crashed while starting: " + vf.log()[-300:].replace("\n", " | "), sample
+        if not st0:
+            # four attempts on fresh ports failed without a crash: the harness could not run this cycle (no verdict)
+            return "not-started", "", sample
         exps = [sender(k) for k in range(2, 2 + rng.randint(1, 5))]
         must = []          # (proto, ip_last, tid, fields) acknowledged >= 300 ms before the signal
         late = []
         seq = 1
 
         next_tid = {}
+        n_sent = {"ipfix": 0, "nf9": 0}
 
         def announce(bucket, late_phase=False):
             nonlocal seq
@@ -180,6 +206,7 @@ def cycle(n, seed, binary, pattern=None):
             msg = (ipfix_msg if proto == "ipfix" else v9_msg)([tpl_set(proto, tid, fields, nscope)], seq)
             seq += 1
             s.sendto(msg, ("127.0.0.1", vf.ports[0] if proto == "ipfix" else vf.ports[3]))
+            n_sent[proto] += 1
             # a later announcement under the same key replaces the earlier one
             bucket[:] = [m for m in bucket if not (m[0] == proto and m[1] == ipl and m[2] == tid)]
             bucket.append((proto, ipl, tid, fields, nscope))
@@ -191,6 +218,7 @@ def cycle(n, seed, binary, pattern=None):
             msg = (ipfix_msg if proto == "ipfix" else v9_msg)([data_set(tid, fields, rng)], seq)
             seq += 1
             s.sendto(msg, ("127.0.0.1", vf.ports[0] if proto == "ipfix" else vf.ports[3]))
+            n_sent[proto] += 1
 
         nt = {"idle": rng.randint(0, 2), "steady": rng.randint(3, 10), "burst": rng.randint(40, 150), "lull": rng.randint(1, 4)}[pattern]
         for _ in range(nt):
@@ -199,6 +227,19 @@ def cycle(n, seed, binary, pattern=None):
                 time.sleep(0.01)
                 if must and rng.random() < 0.5:
                     data(rng.choice(must))
+        # "acknowledged": the collector's own counters say that every datagram sent so far has been decoded (polled
+        # for up to 5 s, so that a loaded machine cannot turn a late worker into a lost template), then 350 ms margin
+        t_ack = time.time()
+        while time.time() - t_ack < 5:
+            st = vf.stats()
+            if st is None:
+                break
+            try:
+                if st["IPFIX"]["DecodedCount"] >= n_sent["ipfix"] and st["NetflowV9"]["DecodedCount"] >= n_sent["nf9"]:
+                    break
+            except (KeyError, TypeError):
+                break
+            time.sleep(0.02)
         time.sleep(0.35)                      # these are "acknowledged before the signal"
         # traffic in flight around the signal: more templates (may or may not make it) and data
         inflight = {"idle": 0, "steady": rng.randint(5, 30), "burst": rng.randint(100, 600), "lull": 0}[pattern]
@@ -292,12 +333,23 @@ def cycle(n, seed, binary, pattern=None):
                 if got != m[3] or len(ent["Template"].get("ScopeFieldSpecifiers") or []) != m[4]:
                     return "exit=0 tpl-differs", "fail:lost template %s 127.0.0.%d/%d stored as %s, announced as %s" % (proto, m[1], m[2], got, m[3]), sample
         # restart on the same cache files: data only, must be decoded at once
-        if not vf.start():
-            return "restart-failed", "fail:restart the collector did not come up again: " + vf.log()[-300:], sample
+        st1 = vf.start()
+        if st1 == "crash":
+            return "restart-crashed", "fail:restart the collector crashed when started again on its own cache files: " + vf.log()[-300:].replace("\n", " | "), sample
+        if not st1:
+            return "not-restarted", "", sample
         probes = must[: 12]
         for m in probes:
             data(m)
-        time.sleep(0.4)
+        # every probe is either decoded or reported unknown; on a loaded machine that can take longer than the
+        # usual few milliseconds, so poll the log (up to 5 s) instead of sleeping a fixed time
+        t_probe = time.time()
+        while time.time() - t_probe < 5:
+            lg = vf.log()
+            if lg.count('"DataSets":[[') + lg.count("unknown ipfix template") + lg.count("unknown netflow template") >= len(probes):
+                break
+            time.sleep(0.05)
+        time.sleep(0.1)
         st = vf.stats()
         rc2, lat2 = vf.stop(signal.SIGTERM)
         log2 = vf.log()
@@ -344,7 +396,7 @@ def shutdown_cycles(pid, tier, seed):
                 r.oracle_ok += 1
                 r.distinct.add(case)
                 lat.append(sample.get("latency_s", 0))
-            else:
+            elif verdict.startswith("fail"):
                 r.oracle_fail.append({"kind": "e2e-shutdown", "seed": seed, "session": [case], "verdict": verdict, "impl": line})
             if len(r.samples) < 3:
                 r.samples.append({"case": case, "impl": line})
